@@ -1114,6 +1114,9 @@ func (e *Engine) callContract(st *State, fc *FuncContract, args []Value, call *a
 		if e.prog.knownPostFinding(fc.key, ens.text) {
 			e.noteAssumption("assumed at a call although listed as a known finding of the callee: " + shortName(fc.key) + " ensures " + normalizeSlug(ens.text))
 		}
+		if ens.assume {
+			e.noteAssumption("assume clause (a postcondition used at call sites but NOT proved in the callee's body): " + shortName(fc.key) + ": " + normalizeSlug(ens.text))
+		}
 		e.assume(st, g, "ensures of "+shortName(fc.key))
 	}
 	if len(vals) == 1 {
